@@ -7,7 +7,7 @@
    PARTIAL: thread preemption inside one generator step cannot be exhibited by the model; concurrent
    readers are explored, not proved. *)
 From Coq Require Import List Bool Arith ZArith.
-From Hpotk Require Import Base.Result Graph.Worklist Graph.Model Iter.Model Iter.Proofs.
+From Hpotk Require Import Base.Result Graph.Worklist Graph.Model Iter.Model Iter.Proofs Iter.Plain.
 Import ListNotations.
 
 (* draining a lazily evaluated traversal iterator yields exactly the list of the eager traversal that
@@ -44,6 +44,16 @@ Theorem C12_matrix_graph_iterators : forall (g : mgraph) (k : TermId.Model.key) 
   mg_traverse_k g k code incl = Ok l ->
   exists init, mg_rel_k g k code incl = Ok init /\ drain (mg_cols g code) pop_first (S (length (mg_nodes g))) (NotStarted init) = l.
 Proof. exact mg_traverse_is_drained_iterator. Qed.
+
+(* the parent / child queries return lazy iterators as well (a map over one CSR row, a generator over one matrix row):
+   the instance without successors, consumed first-in-first-out.  Drained it is the row; in ANY history of opening and
+   advancing such iterators the k-th one yields the first items of its own row, then StopIteration *)
+Theorem C12_neighbour_iterators : forall (ops : list op) (its : list it) (k : nat) (row : list nat),
+  nth_error its k = Some (NotStarted row) ->
+  drain no_succ pop_first (S (List.length row)) (NotStarted row) = row /\
+  let m := nexts_of k ops in
+  outputs_of k (snd (exec no_succ pop_first its ops)) = map Some (firstn m row) ++ repeat None (m - List.length row).
+Proof. exact (fun ops its k row H => conj (plain_iterator_drain row (S (List.length row)) (Nat.lt_succ_diag_r _)) (plain_iterators_do_not_interfere ops its k row H)). Qed.
 
 (* non-vacuity: three iterators over a diamond, interleaved *)
 Example C12_example :
